@@ -470,7 +470,7 @@ func flatVariantSchemas(r *report.Run, s *spec.Spec, doc any) {
 			}
 			for _, f := range m.Fields {
 				if !inAny[f.Name] && isReq(f) {
-					wantCommon[spec.JSONName(f.Name)] = true
+					wantCommon[spec.FieldJSONName(f)] = true
 				}
 			}
 			for _, f := range m.Fields {
@@ -497,7 +497,7 @@ func flatVariantSchemas(r *report.Run, s *spec.Spec, doc any) {
 				}
 				var missingProps []string
 				for _, cf := range vm.Fields {
-					jn := spec.JSONName(cf.Name)
+					jn := spec.FieldJSONName(cf)
 					if _, ok := props[jn]; !ok {
 						missingProps = append(missingProps, jn)
 					}
